@@ -58,7 +58,8 @@ CHECKS = {
          "note": BASE_NOTE},
  "C02": {"ref": "5/C02", "technique": "Lean 4 refinement proof (evaluation loop = MvPolynomial.eval; argument binding logic) + model correspondence over all numeric carrier types",
          "text": "call_eval proves the evaluation loop equals MvPolynomial.eval for every polynomial; call_staged (Mathlib's "
-                 "bind1/eval) gives staged = at-once; call_unknown_keyword/call_double/call_binds cover the TypeError logic; "
+                 "bind1/eval) gives staged = at-once; call_unknown_keyword/call_double/call_binds cover the TypeError logic, call_binds_none_keyword / call_none_keyword_errors "
+                 "the same with None as a keyword value (a placeholder, D55); "
                  "call_array_is_bind1: every position (i, j) of the executable array-level call is Mathlib's bind1 of the "
                  "parameters' elements at j into element i; call_outcomes / call_returns_values / call_array_iff_constant / "
                  "call_returns_substitution: the complete call of the model (callArr) raises ValueError iff the argument shapes do "
@@ -119,7 +120,11 @@ CHECKS = {
                  "combinations; likewise basic indexing with Python slice semantics, split / array_split, diag, atleast_nd, broadcast_to "
                  "(IndexFns: basic_index_reads, split_reads, ...) and where / choose / full / hstack / vstack / dstack (SelectFns: where_reads, "
                  "choose_reads, vstack_reads, ...) and integer-array indexing / take / repeat with counts (AdvIndexFns: advanced_index_reads, "
-                 "separated_advanced_index_reads, take_reads, repeat_counts_reads), ~1500 model-vs-numpy cases per run. 31 functions / methods / indexing forms are run on 0-3-d "
+                 "separated_advanced_index_reads, take_reads, repeat_counts_reads) and the general index expression with integers, stepped slices, "
+                 "newaxis, ellipsis, integer arrays and boolean masks in one tuple (GenIndexFns: general_index_in_range, general_index_reads - "
+                 "numpy's view stage followed by the advanced stage, broadcast axes in place iff the advanced items are adjacent in the index as "
+                 "written -, mask_selects_true_positions: a mask of the operand's shape selects the True positions in C order, every shape and mask), "
+                 "~1700 model-vs-numpy cases per run. 32 functions / methods / indexing forms are run on 0-3-d "
                  "arrays incl. transposed views; the expected placement comes from running the same numpy function on "
                  "index arrays and gathering in the Lean model; joins use operands with different names and terms.",
          "note": BASE_NOTE + " numpy's shape functions are assumed to be value-independent rearrangements (that is what running them on index arrays uses)."},
@@ -173,7 +178,8 @@ CHECKS = {
                  "numpy.loadtxt's squeezing; file_roundtrip: the whole file (header line, one line per element, one number per stored term, "
                  "comment cutting, splitting, squeeze, reshape(-1, nkeys), split into columns) loads back to the header and every coefficient "
                  "column - 0-d, size-1, single-term and general arrays in one theorem, for every number codec that decodes what it encodes; "
-                 "file_layout; decimal_codec; reduce_roundtrip via C03. Pickle protocols 0-5, copy, deepcopy, .copy() and "
+                 "file_layout; decimal_codec; reduce_roundtrip: rebuilding from what __reduce__ passes is the identity on the stored terms and names "
+                 "(exact since the repair D57; reduce_roundtrip_old / reduce_old_dropped_terms keep the earlier behaviour as a witness). Pickle protocols 0-5, copy, deepcopy, .copy() and "
                  "savetxt/loadtxt over fmt/delimiter/header/comments x StringIO/BytesIO/paths run for real; the header "
                  "line written by the implementation is compared with the Lean codec; files written with fmt='%d' are compared line by line with "
                  "the model's file and read back by the model's loader (driver op textfile); plain files must load as arrays.",
